@@ -152,11 +152,11 @@ func writeSessions(c *hc.Ctx, add func(line, impl string)) {
 		c.Count("session-conn." + kind)
 		ln := &memListener{ch: make(chan net.Conn, 1)}
 		ln.ch <- &memConn{rd: &c16c17.Chunked{Data: conn.out.Bytes(), Rng: r.Fork(), Mode: r.Intn(3)}}
-		server, err := transport.Listen(ln).Accept()
+		// explicit protocol: the header-less full protocol is only auto-detectable for aligned payloads
+		// (C16 quantifies over multiples of 4; sessions also send unaligned ones, which Full accepts)
+		server, err := transport.ListenCodec(func() transport.Codec { return c16c17.NewCodec(kind, 0) }, ln).Accept()
 		if err != nil {
-			if len(accepted) > 0 || kind != "full" {
-				fail(c, "session-conn:"+kind, sig, "Accept: "+err.Error())
-			}
+			fail(c, "session-conn:"+kind, sig, "Accept: "+err.Error())
 			continue
 		}
 		for j, p := range accepted {
